@@ -10,9 +10,14 @@ Variable cfgs : list ncfg.
 Notation n := (length cfgs).
 Notation cfg := (EngineFacts.cfg cfgs).
 
-(* node j has an ACTIVE input bound to the output of node src *)
-Definition act_from (src j : nat) : bool :=
-  existsb (fun s => (i_src s =? src)%nat && i_active s) (c_ins (cfg j)).
+(* node j has, in state g, a subscribed (run-time active) input bound to the output of node src:
+   activate_input_slots sets the flags to the declared i_active at start, user code may change them
+   with make_passive / make_active *)
+Definition ract (g : gst) (src j : nat) : bool :=
+  existsb (fun sa => (i_src (fst sa) =? src)%nat && snd sa) (combine (c_ins (cfg j)) (n_act (node_at j g))).
+
+Lemma ract_act g g' src j : n_act (node_at j g') = n_act (node_at j g) -> ract g' src j = ract g src j.
+Proof. intros H. unfold ract. rewrite H. reflexivity. Qed.
 
 (* the node under evaluation did not write its output: nobody else's slot moved *)
 Definition quiet (i : nat) (g g' : gst) : Prop :=
@@ -20,10 +25,10 @@ Definition quiet (i : nat) (g g' : gst) : Prop :=
   forall m, m <> i -> slot_at m g' = slot_at m g.
 
 (* it wrote: its output is modified now, and exactly its started active readers are due now *)
-Definition wrote (i : nat) (g g' : gst) : Prop :=
+Definition fwrote (i : nat) (g g' : gst) : Prop :=
   n_lmt (node_at i g') = g_now g /\ n_val (node_at i g') <> None /\
-  (forall m, m <> i -> slot_at m g' = slot_at m g \/ (act_from i m = true /\ slot_at m g' = g_now g)) /\
-  (forall m, m <> i -> (m < n)%nat -> (m < length (g_slots g))%nat -> act_from i m = true ->
+  (forall m, m <> i -> slot_at m g' = slot_at m g \/ (ract g i m = true /\ slot_at m g' = g_now g)) /\
+  (forall m, m <> i -> (m < n)%nat -> (m < length (g_slots g))%nat -> ract g i m = true ->
              n_started (node_at m g) = true -> slot_at m g' = g_now g).
 
 Record frame (st : bool) (i : nat) (g g' : gst) : Prop := {
@@ -34,7 +39,7 @@ Record frame (st : bool) (i : nat) (g g' : gst) : Prop := {
   fr_started : n_started (node_at i g') = n_started (node_at i g);
   fr_nst : g_nst g' <= g_nst g;
   fr_gt : g_now g < g_nst g -> g_now g < g_nst g';
-  fr_out : quiet i g g' \/ (st = true /\ wrote i g g') }.
+  fr_out : quiet i g g' \/ (st = true /\ fwrote i g g') }.
 
 Lemma frame_refl st i g : frame st i g g.
 Proof. constructor; auto; try lia. left. unfold quiet. repeat split; auto. Qed.
@@ -51,16 +56,21 @@ Proof.
   - destruct A8 as [(Q1 & Q2 & Q3)|(S1 & W1 & W2 & W3 & W4)]; destruct B8 as [(R1 & R2 & R3)|(S2 & V1 & V2 & V3 & V4)].
     + left. repeat split; try congruence. intros m Hm. rewrite R3, Q3; auto.
     + right. split; auto. repeat split; try congruence.
-      * intros m Hm. destruct (V3 m Hm) as [X|[X Y]]; [left; rewrite X; auto|right; split; auto; congruence].
-      * intros m Hm Hn Hl Ha Hs. rewrite <- A1. apply V4; auto; try congruence. rewrite A4; auto.
+      * intros m Hm. destruct (V3 m Hm) as [X|[X Y]]; [left; rewrite X; auto|right; split; [|congruence]].
+        rewrite <- X. symmetry. apply ract_act. rewrite A4; auto.
+      * intros m Hm Hn Hl Ha Hs. rewrite <- A1. apply V4; auto; try congruence.
+        -- rewrite <- Ha. apply ract_act. rewrite A4; auto.
+        -- rewrite A4; auto.
     + right. split; auto. repeat split; try congruence.
       * intros m Hm. rewrite R3 by auto. apply W3; auto.
       * intros m Hm Hn Hl Ha Hs. rewrite R3 by auto. apply W4; auto.
     + right. split; auto. repeat split; try congruence.
       * intros m Hm. destruct (V3 m Hm) as [X|[X Y]].
         -- rewrite X. apply W3; auto.
-        -- right. split; auto. congruence.
-      * intros m Hm Hn Hl Ha Hs. rewrite <- A1. apply V4; auto; try congruence. rewrite A4; auto.
+        -- right. split; [|congruence]. rewrite <- X. symmetry. apply ract_act. rewrite A4; auto.
+      * intros m Hm Hn Hl Ha Hs. rewrite <- A1. apply V4; auto; try congruence.
+        -- rewrite <- Ha. apply ract_act. rewrite A4; auto.
+        -- rewrite A4; auto.
 Qed.
 
 Lemma frame_emit st i l g : frame st i g (emit l g).
@@ -135,15 +145,15 @@ Lemma notify_spec l : forall j src g,
   g_now g' = g_now g /\ g_nodes g' = g_nodes g /\ g_nst g' = g_nst g /\ g_err g' = g_err g /\
   length (g_slots g') = length (g_slots g) /\
   (forall m, slot_at m g' = slot_at m g \/
-             ((j <= m < j + length l)%nat /\ act_from src m = true /\ slot_at m g' = g_now g)) /\
-  (forall m, (j <= m < j + length l)%nat -> (m < length (g_slots g))%nat -> act_from src m = true ->
+             ((j <= m < j + length l)%nat /\ ract g src m = true /\ slot_at m g' = g_now g)) /\
+  (forall m, (j <= m < j + length l)%nat -> (m < length (g_slots g))%nat -> ract g src m = true ->
              n_started (node_at m g) = true -> slot_at m g' = g_now g).
 Proof.
   induction l as [|c r IH]; intros j src g Hl; cbn zeta.
   - simpl. repeat split; auto. intros; simpl in *; lia.
   - simpl notify_from.
     assert (Hc : c = cfg j) by (rewrite (Hl 0%nat c eq_refl); f_equal; lia).
-    set (b := existsb (fun s => (i_src s =? src)%nat && i_active s) (c_ins c) && n_started (node_at j g)).
+    set (b := existsb (fun sa => (i_src (fst sa) =? src)%nat && snd sa) (combine (c_ins c) (n_act (node_at j g))) && n_started (node_at j g)).
     set (g1 := if b then schedule_node j (g_now g) g else g).
     assert (G1 : g_now g1 = g_now g /\ g_nodes g1 = g_nodes g /\ g_nst g1 = g_nst g /\ g_err g1 = g_err g /\
                  length (g_slots g1) = length (g_slots g) /\
@@ -160,23 +170,24 @@ Proof.
     destruct (IH Hl') as (B1 & B2 & B3 & B4 & B5 & B6 & B7).
     fold b. fold g1.
     assert (ND : forall m, node_at m g1 = node_at m g) by (intros; unfold node_at; rewrite A2; auto).
+    assert (RA : forall m, ract g1 src m = ract g src m) by (intros; apply ract_act; rewrite ND; auto).
     repeat split; try congruence.
     + intros m. destruct (B6 m) as [X|(X1 & X2 & X3)].
       * destruct (Nat.eq_dec m j) as [->|Hne].
         -- destruct b eqn:Eb.
            ++ destruct (Nat.lt_ge_cases j (length (g_slots g))) as [Hlt|Hge].
               ** right. split; [simpl; lia|]. split.
-                 --- unfold b in Eb. apply andb_true_iff in Eb. unfold act_from. rewrite <- Hc. tauto.
+                 --- unfold b in Eb. apply andb_true_iff in Eb. unfold ract. rewrite <- Hc. tauto.
                  --- rewrite X. rewrite A7; auto.
               ** left. rewrite X. unfold slot_at. rewrite !nth_overflow; auto; lia.
            ++ left. rewrite X. apply A8; auto.
         -- left. rewrite X. apply A6; auto.
-      * right. split; [simpl; lia|]. split; auto. congruence.
+      * right. split; [simpl; lia|]. split; [rewrite <- RA; auto|congruence].
     + intros m Hm Hlen Ha Hs. destruct (Nat.eq_dec m j) as [->|Hne].
       * assert (Eb : b = true).
-        { unfold b. apply andb_true_iff. split; auto. unfold act_from in Ha. rewrite <- Hc in Ha. exact Ha. }
+        { unfold b. apply andb_true_iff. split; auto. unfold ract in Ha. rewrite <- Hc in Ha. exact Ha. }
         destruct (B6 j) as [X|(X1 & _)]; [|lia]. rewrite X. apply A7; auto.
-      * rewrite <- A1. apply B7; auto; try (simpl in Hm; lia). rewrite ND. auto.
+      * rewrite <- A1. apply B7; auto; try (simpl in Hm; lia); [rewrite RA; auto|rewrite ND; auto].
 Qed.
 
 (* writing the output and notifying the subscribers *)
@@ -203,8 +214,10 @@ Proof.
     + rewrite ND, NI. reflexivity.
     + rewrite ND, NI. simpl. discriminate.
     + intros m Hm. destruct (B6 m) as [X|(_ & X2 & X3)]; [left; exact X|right; split; auto].
+      rewrite <- X2. symmetry. apply ract_act. unfold g1. rewrite node_at_upd_other; auto.
     + intros m Hm Hn Hlen Ha Hs. apply B7; auto; try (simpl; lia).
-      unfold g1. rewrite node_at_upd_other; auto.
+      * rewrite <- Ha. apply ract_act. unfold g1. rewrite node_at_upd_other; auto.
+      * unfold g1. rewrite node_at_upd_other; auto.
 Qed.
 
 Lemma set_sch_keeps s x : n_val (set_sch s x) = n_val x /\ n_lmt (set_sch s x) = n_lmt x /\ n_started (set_sch s x) = n_started x.
@@ -232,6 +245,8 @@ Proof.
     eapply frame_trans; [|apply frame_emit]. apply frame_write; auto.
   - apply frame_sched_self.
   - apply frame_set_err.
+  - apply frame_upd. intros x. repeat split.
+  - apply frame_upd. intros x. repeat split.
   - apply frame_refl.
 Qed.
 
@@ -282,17 +297,20 @@ Variable cfgs : list ncfg.
 Notation n := (length cfgs).
 Notation cfg := (EngineFacts.cfg cfgs).
 
-Lemma act_from_source j s : cfg s = source_cfg -> act_from cfgs j s = false.
-Proof. intros H. unfold act_from. rewrite H. reflexivity. Qed.
+Lemma ract_source g j s : cfg s = source_cfg -> ract cfgs g j s = false.
+Proof. intros H. unfold ract. rewrite H. reflexivity. Qed.
 
-Lemma act_from_sink j k p s : cfg k = sink_cfg p s -> act_from cfgs j k = true -> j = p.
+(* the sink's subscriptions are what activate_input_slots made them: ts active, ts_self passive *)
+Lemma ract_sink g j k p s :
+  cfg k = sink_cfg p s -> n_act (node_at k g) = [true; false] -> ract cfgs g j k = true -> j = p.
 Proof.
-  intros H. unfold act_from. rewrite H. simpl. rewrite !andb_false_r, !orb_false_r, andb_true_r.
+  intros H Ha. unfold ract. rewrite H, Ha. simpl. rewrite !andb_false_r, !orb_false_r, andb_true_r.
   intros E. apply Nat.eqb_eq in E. auto.
 Qed.
 
-Lemma act_from_sink_prod k p s : cfg k = sink_cfg p s -> act_from cfgs p k = true.
-Proof. intros H. unfold act_from. rewrite H. simpl. rewrite Nat.eqb_refl. reflexivity. Qed.
+Lemma ract_sink_prod g k p s :
+  cfg k = sink_cfg p s -> n_act (node_at k g) = [true; false] -> ract cfgs g p k = true.
+Proof. intros H Ha. unfold ract. rewrite H, Ha. simpl. rewrite Nat.eqb_refl. reflexivity. Qed.
 
 Lemma ready_sink p s g : ready (sink_cfg p s) g = true <-> n_val (node_at p g) <> None.
 Proof.
@@ -325,7 +343,7 @@ Proof.
     split; [eapply frame_trans; [apply frame_write; auto|apply frame_emit]|].
     split; auto. split.
     + change (slot_at j (notify_from cfgs 0 j g1) = slot_at j (f_g x)).
-      destruct (B6 j) as [X|(_ & X & _)]; [exact X|]. rewrite act_from_source in X by auto. discriminate.
+      destruct (B6 j) as [X|(_ & X & _)]; [exact X|]. rewrite ract_source in X by auto. discriminate.
     + intros _. change (n_lmt (node_at j (notify_from cfgs 0 j g1)) = g_now (f_g x) /\ n_val (node_at j (notify_from cfgs 0 j g1)) = Some v).
       assert (ND : node_at j (notify_from cfgs 0 j g1) = node_at j g1) by (unfold node_at; rewrite B2; auto).
       rewrite ND. unfold g1. rewrite node_at_upd_same by auto. simpl. auto.
@@ -408,19 +426,20 @@ Proof.
   exfalso. apply H. unfold kind_at. apply nth_overflow; auto.
 Qed.
 
+Hypothesis WF : fb_wf.
+Variables (k p s : nat) (init : option Z).
+Hypothesis HK : kind k = FSink.
+Hypothesis HC : cfg k = sink_cfg p s.
+Hypothesis HS : kind s = FSource init.
+
 Record base (t : Z) (x : xst) : Prop := {
   b_now : g_now (f_g x) = t;
   b_ls : length (g_slots (f_g x)) = n;
   b_ln : length (g_nodes (f_g x)) = n;
   b_lst : length (f_st x) = n;
   b_started : forall i, (i < n)%nat -> n_started (node_at i (f_g x)) = true;
-  b_nst : t < g_nst (f_g x) }.
-
-Hypothesis WF : fb_wf.
-Variables (k p s : nat) (init : option Z).
-Hypothesis HK : kind k = FSink.
-Hypothesis HC : cfg k = sink_cfg p s.
-Hypothesis HS : kind s = FSource init.
+  b_nst : t < g_nst (f_g x);
+  b_actk : n_act (node_at k (f_g x)) = [true; false] }.
 
 Lemma k_lt : (k < n)%nat.
 Proof. rewrite <- (wf_len WF). apply kind_lt. rewrite HK. discriminate. Qed.
@@ -460,7 +479,7 @@ Record eff (t : Z) (j : nat) (x x' : xst) : Prop := {
 Lemma step_eff t j x :
   (j < n)%nat -> base t x -> eff t j x (fscan_step cfgs kinds beh j x).
 Proof.
-  intros Hj [B1 B2 B3 B4 B5 B6]. unfold fscan_step. cbn zeta.
+  intros Hj [B1 B2 B3 B4 B5 B6 B7]. unfold fscan_step. cbn zeta.
   pose proof k_lt as KL. pose proof s_lt_k as SK. pose proof p_lt_k as PK. pose proof s_cfg as SC.
   destruct (slot_at j (f_g x) =? g_now (f_g x)) eqn:E.
   - (* the node is due: evaluated *)
@@ -475,6 +494,9 @@ Proof.
     assert (G0s : forall m, n_started (node_at m g0) = n_started (node_at m (f_g x)) /\
                             n_val (node_at m g0) = n_val (node_at m (f_g x)) /\ n_lmt (node_at m g0) = n_lmt (node_at m (f_g x))).
     { intros m. destruct (Nat.eq_dec m j) as [->|Hm]; [rewrite G0j; auto|rewrite G0o; auto]. }
+    assert (G0a : forall m, n_act (node_at m g0) = n_act (node_at m (f_g x))).
+    { intros m. destruct (Nat.eq_dec m j) as [->|Hm]; [rewrite G0j; auto|rewrite G0o; auto]. }
+    assert (AK0 : n_act (node_at k g0) = [true; false]) by (rewrite G0a; auto).
     assert (G0sl : forall m, slot_at m g0 = slot_at m (f_g x)) by reflexivity.
     assert (G0nst : g_nst g0 = g_nst (f_g x)) by reflexivity.
     assert (G0ls : length (g_slots g0) = n) by exact B2.
@@ -484,8 +506,9 @@ Proof.
       assert (Njs : j <> s) by (intros ->; congruence).
       assert (Njk : j <> k) by (intros ->; congruence).
       pose proof (frame_eval_node cfgs beh j g0 ltac:(lia)) as [F1 F2 F3 F4 F5 F6 F7 F8].
+      assert (AK : n_act (node_at k (eval_node cfgs beh j g0)) = [true; false]) by (rewrite F4; auto).
       constructor; simpl f_g; simpl f_st; try contradiction.
-      * constructor; simpl; try congruence; try lia.
+      * constructor; try exact AK; simpl; try congruence; try lia.
         intros i Hi. destruct (Nat.eq_dec i j) as [->|Hne].
         -- rewrite F5. rewrite (proj1 (G0s j)). auto.
         -- rewrite F4 by auto. rewrite (proj1 (G0s i)). auto.
@@ -494,14 +517,14 @@ Proof.
       * reflexivity.
       * intros _. destruct F8 as [(Q1 & Q2 & Q3)|(_ & W1 & W2 & W3 & W4)].
         -- rewrite Q3; auto.
-        -- destruct (W3 s ltac:(auto)) as [X|[X _]]; [rewrite X; auto|]. rewrite act_from_source in X; auto. discriminate.
+        -- destruct (W3 s ltac:(auto)) as [X|[X _]]; [rewrite X; auto|]. rewrite ract_source in X; auto. discriminate.
       * intros Hp. destruct F8 as [(Q1 & Q2 & Q3)|(_ & W1 & W2 & W3 & W4)].
         -- rewrite Q3; auto.
-        -- destruct (W3 k ltac:(auto)) as [X|[X _]]; [rewrite X; auto|]. apply (act_from_sink cfgs j k p s HC) in X. contradiction.
+        -- destruct (W3 k ltac:(auto)) as [X|[X _]]; [rewrite X; auto|]. apply (ract_sink cfgs g0 j k p s HC AK0) in X. contradiction.
       * intros ->. destruct F8 as [(Q1 & Q2 & Q3)|(_ & W1 & W2 & W3 & W4)].
         -- left. split; [split|]; try (rewrite Q3; auto). rewrite Q1; apply G0s. rewrite Q2; apply G0s.
         -- right. split; [congruence|]. split; auto. rewrite <- G0n. apply W4; auto; try lia.
-           ++ apply (act_from_sink_prod cfgs k p s HC).
+           ++ apply (ract_sink_prod cfgs g0 k p s HC AK0).
            ++ rewrite (proj1 (G0s k)). auto.
     + (* a feedback source *)
       assert (Njk : j <> k) by (intros ->; congruence).
@@ -510,8 +533,9 @@ Proof.
       cbn [f_g f_st] in *.
       assert (Stj : n_started (node_at j g0) = true) by (rewrite (proj1 (G0s j)); auto).
       specialize (S3 Stj).
+      assert (AK : n_act (node_at k (f_g (eval_source cfgs j {| f_g := g0; f_st := f_st x |}))) = [true; false]) by (rewrite F4; auto).
       constructor; try contradiction.
-      * constructor; try congruence; try lia.
+      * constructor; try exact AK; try congruence; try lia.
         intros i Hi. destruct (Nat.eq_dec i j) as [->|Hne].
         -- rewrite F5. auto.
         -- rewrite F4 by auto. rewrite (proj1 (G0s i)). auto.
@@ -521,10 +545,10 @@ Proof.
       * intros _. destruct (Nat.eq_dec j s) as [->|Njs]; [rewrite S2; auto|].
         destruct F8 as [(Q1 & Q2 & Q3)|(_ & W1 & W2 & W3 & W4)].
         -- rewrite Q3; auto.
-        -- destruct (W3 s ltac:(auto)) as [X|[X _]]; [rewrite X; auto|]. rewrite act_from_source in X; auto. discriminate.
+        -- destruct (W3 s ltac:(auto)) as [X|[X _]]; [rewrite X; auto|]. rewrite ract_source in X; auto. discriminate.
       * intros Hp. destruct F8 as [(Q1 & Q2 & Q3)|(_ & W1 & W2 & W3 & W4)].
         -- rewrite Q3; auto.
-        -- destruct (W3 k ltac:(auto)) as [X|[X _]]; [rewrite X; auto|]. apply (act_from_sink cfgs j k p s HC) in X. contradiction.
+        -- destruct (W3 k ltac:(auto)) as [X|[X _]]; [rewrite X; auto|]. apply (ract_sink cfgs g0 j k p s HC AK0) in X. contradiction.
       * intros ->. left. split; auto.
         change (state_at s {| f_g := g0; f_st := f_st x |}) with (state_at s x) in S3.
         destruct (state_at s x) as [v|].
@@ -533,7 +557,7 @@ Proof.
       * intros ->. destruct F8 as [(Q1 & Q2 & Q3)|(_ & W1 & W2 & W3 & W4)].
         -- left. split; [split|]; try (rewrite Q3; auto). rewrite Q1; apply G0s. rewrite Q2; apply G0s.
         -- right. split; [congruence|]. split; auto. rewrite <- G0n. apply W4; auto; try lia.
-           ++ apply (act_from_sink_prod cfgs k p s HC).
+           ++ apply (ract_sink_prod cfgs g0 k p s HC AK0).
            ++ rewrite (proj1 (G0s k)). auto.
     + (* a feedback sink *)
       assert (Njs : j <> s) by (intros ->; congruence).
@@ -545,8 +569,9 @@ Proof.
       assert (Nssk : k <> ss) by (intros <-; congruence).
       assert (Hss : j <> k -> s <> ss).
       { intros Hne <-. apply Hne. apply (wf_pair WF j k Kj HK). rewrite Cj, HC. reflexivity. }
+      assert (AK : n_act (node_at k (f_g x')) = [true; false]) by (rewrite ND; auto).
       constructor; try contradiction.
-      * constructor; try congruence; try lia.
+      * constructor; try exact AK; try congruence; try lia.
         intros i Hi. rewrite ND. rewrite (proj1 (G0s i)). auto.
       * lia.
       * intros m Hm. rewrite ND. apply G0o; auto.
@@ -573,7 +598,7 @@ Proof.
     assert (SL : forall m, slot_at m (f_g x') = slot_at m (f_g x)) by (intros; unfold slot_at; rewrite X2; auto).
     assert (ST : forall m, state_at m x' = state_at m x) by (intros; unfold state_at; rewrite X4; auto).
     constructor; auto; try lia.
-    + constructor; try congruence; try lia. intros i Hi. rewrite ND. auto.
+    + constructor; try congruence; try lia; try solve [rewrite ND; auto]; try solve [intros i Hi; rewrite ND; auto].
     + intros ->. right. split; auto. split; rewrite ND; auto.
     + intros ->. left. split; [split; rewrite ND; auto|auto].
     + intros ->. right. split; auto.
@@ -682,6 +707,7 @@ Record FB (pend : option Z) (x : xst) : Prop := {
   fb_lmt_s : n_lmt (node_at s (f_g x)) < g_nst (f_g x);
   fb_lmt_p : n_lmt (node_at p (f_g x)) < g_nst (f_g x);
   fb_slot_k : slot_at k (f_g x) < g_nst (f_g x);
+  fb_actk : n_act (node_at k (f_g x)) = [true; false];
   fb_pend : match pend with
             | Some v => state_at s x = Some v /\ slot_at s (f_g x) = g_nst (f_g x)
             | None => slot_at s (f_g x) < g_nst (f_g x)
@@ -698,7 +724,7 @@ Lemma fcycle_pair pend x :
   g_now (f_g x') = t /\ tick_now s (f_g x') = pend /\ FB (tick_now p (f_g x')) x' /\
   t < g_nst (f_g x') /\ (tick_now p (f_g x') <> None -> g_nst (f_g x') = t + MIN_TD).
 Proof.
-  intros [L1 L2 L3 St A1 A2 A3 A4] Hlt. cbn zeta. unfold fcycle. cbn zeta. simpl f_g. simpl f_st.
+  intros [L1 L2 L3 St A1 A2 A3 AK A4] Hlt. cbn zeta. unfold fcycle. cbn zeta. simpl f_g. simpl f_st.
   set (t := g_nst (f_g x)).
   set (x0 := {| f_g := begin_cycle t (f_g x); f_st := f_st x |}).
   intros Herr.
@@ -712,7 +738,7 @@ Proof.
     - intros _. fold t in A2. unfold node_at in *; simpl. lia.
     - fold t in A3. unfold slot_at in *; simpl. lia.
     - intros _. fold t in A2, A3. unfold node_at, slot_at in *; simpl. lia. }
-  pose proof (fscan_PI pend t n 0%nat x0 ltac:(lia) H0 Herr) as [[B1 B2 B3 B4 B5 B6] P1 P2 P3 P4 P5 P6 P7 P8].
+  pose proof (fscan_PI pend t n 0%nat x0 ltac:(lia) H0 Herr) as [[B1 B2 B3 B4 B5 B6 B7] P1 P2 P3 P4 P5 P6 P7 P8].
   set (x1 := fscan cfgs kinds beh 0 n x0) in *.
   change (g_now (f_g x1) = t /\ tick_now s (f_g x1) = pend /\
           FB (tick_now p (f_g x1)) {| f_g := emit [20; t; g_nst (f_g x1)] (f_g x1); f_st := f_st x1 |} /\
@@ -817,10 +843,22 @@ Lemma start_node_spec behs i g :
 Proof.
   intros Hi. cbn zeta. unfold start_node.
   destruct (negb (g_err g =? 0)) eqn:E0; [repeat split; auto; intros; lia|]. cbn zeta.
-  set (ops := behs i (-1) (g_now g) (read_inputs (nth i cfgs dflt_cfg) g) (n_sch (node_at i g))).
-  pose proof (frame_do_ops cfgs false i ops 0 g Hi) as [F1 F2 F3 F4 F5 F6 F7 F8].
-  set (g1 := do_ops cfgs i false 0 ops g) in *.
+  (* activate_input_slots *)
+  set (ga := upd_node i (set_act (map i_active (c_ins (nth i cfgs dflt_cfg)))) g).
+  assert (Hia : (i < length (g_nodes ga))%nat) by (unfold ga, upd_node; simpl; rewrite update_length; auto).
+  set (ops := behs i (-1) (g_now ga) (read_inputs (nth i cfgs dflt_cfg) ga) (n_sch (node_at i ga))).
+  pose proof (frame_do_ops cfgs false i ops 0 ga Hia) as [F1 F2 F3 F4 F5 F6 F7 F8].
+  set (g1 := do_ops cfgs i false 0 ops ga) in *.
   destruct F8 as [(Q1 & Q2 & Q3)|[X _]]; [|discriminate].
+  assert (G1 : g_now g1 = g_now g /\ length (g_slots g1) = length (g_slots g) /\ length (g_nodes g1) = length (g_nodes g) /\
+          (forall m, m <> i -> node_at m g1 = node_at m g) /\ (forall m, m <> i -> slot_at m g1 = slot_at m g) /\
+          n_val (node_at i g1) = n_val (node_at i g) /\ n_lmt (node_at i g1) = n_lmt (node_at i g)).
+  { split; [rewrite F1; reflexivity|]. split; [rewrite F2; reflexivity|].
+    split; [rewrite F3; unfold ga, upd_node; simpl; apply update_length|].
+    split; [intros m Hm; rewrite F4 by auto; unfold ga; apply node_at_upd_other; auto|].
+    split; [intros m Hm; rewrite Q3 by auto; reflexivity|].
+    split; [rewrite Q1|rewrite Q2]; unfold ga; rewrite node_at_upd_same by auto; reflexivity. }
+  destruct G1 as (C1 & C2 & C3 & C4 & C5 & C6 & C7).
   destruct (negb (g_err g1 =? 0)) eqn:E1; [repeat split; auto; intros; lia|].
   set (g2 := upd_node i set_started g1).
   assert (G2 : g_now g2 = g_now g /\ length (g_slots g2) = length (g_slots g) /\ length (g_nodes g2) = length (g_nodes g) /\
@@ -845,26 +883,39 @@ Proof.
   - repeat split; auto; try solve [intros m Hm; rewrite A5; auto].
 Qed.
 
-(* the start of the two feedback kinds: only a source with an initial delta arms itself *)
+(* the start of the two feedback kinds: only a source with an initial delta arms itself; the
+   subscriptions of a feedback node stay what activate_input_slots made them (no user code) *)
 Lemma start_node_fb_slot i g :
   (i < length (g_nodes g))%nat -> (i < length (g_slots g))%nat -> g_err (start_node cfgs (fb_beh kinds beh) i g) = 0 ->
   (kind i = FSink \/ kind i = FSource None -> c_sos (cfg i) = false ->
-     slot_at i (start_node cfgs (fb_beh kinds beh) i g) = slot_at i g) /\
+     slot_at i (start_node cfgs (fb_beh kinds beh) i g) = slot_at i g /\
+     n_act (node_at i (start_node cfgs (fb_beh kinds beh) i g)) = map i_active (c_ins (cfg i))) /\
   (forall v, kind i = FSource (Some v) -> c_sos (cfg i) = false -> slot_at i g <= g_now g ->
      slot_at i (start_node cfgs (fb_beh kinds beh) i g) = g_now g).
 Proof.
   intros Hi Hs. unfold start_node. fold (cfg i).
-  destruct (negb (g_err g =? 0)) eqn:E0; [intros; lia|]. cbn zeta. intros Herr.
-  split.
-  - intros Hk Hsos. rewrite Hsos. unfold fb_beh. destruct Hk as [Hk|Hk]; rewrite Hk; simpl; rewrite E0; reflexivity.
-  - intros v Hk Hsos Hle. unfold fb_beh in *. rewrite Hk in *. rewrite Hsos in *. simpl in *. unfold do_op in *. rewrite E0 in *.
-    rewrite Z.add_0_r in *.
-    destruct (schedule_node_spec i (g_now g) g) as (_ & _ & _ & _ & N4). specialize (N4 ltac:(lia)).
+  destruct (negb (g_err g =? 0)) eqn:E0; [intros; lia|]. cbn zeta.
+  set (ga := upd_node i (set_act (map i_active (c_ins (cfg i)))) g).
+  assert (Ea : negb (g_err ga =? 0) = false) by exact E0.
+  assert (Na : g_now ga = g_now g) by reflexivity.
+  assert (Hia : (i < length (g_nodes ga))%nat) by (unfold ga, upd_node; simpl; rewrite update_length; auto).
+  intros Herr. split.
+  - intros Hk Hsos. rewrite Hsos in *. unfold fb_beh in *.
+    assert (Eo : (match kind i with
+                  | FNative => beh i (-1) (g_now ga) (read_inputs (cfg i) ga) (n_sch (node_at i ga))
+                  | FSource (Some _) => if -1 =? -1 then [ORaw 0] else []
+                  | _ => [] end) = []) by (destruct Hk as [Hk|Hk]; rewrite Hk; reflexivity).
+    rewrite Eo in *. simpl do_ops in *. rewrite Ea in *.
+    split; [reflexivity|].
+    rewrite node_at_upd_same by exact Hia. simpl. unfold ga. rewrite node_at_upd_same by exact Hi. reflexivity.
+  - intros v Hk Hsos Hle. unfold fb_beh in *. rewrite Hk in *. rewrite Hsos in *. simpl do_ops in *. unfold do_op in *. rewrite Ea in *.
+    rewrite Na in *. rewrite Z.add_0_r in *.
+    destruct (schedule_node_spec i (g_now g) ga) as (_ & _ & _ & _ & N4). specialize (N4 ltac:(rewrite Na; lia)).
     destruct N4 as (Er & Y & _).
-    assert (AP : sn_applies i (g_now g) g = true) by (unfold sn_applies; lia).
+    assert (AP : sn_applies i (g_now g) ga = true) by (unfold sn_applies; change (slot_at i ga) with (slot_at i g); rewrite Na; lia).
     destruct (Y AP) as [YS _].
-    replace (negb (g_err (schedule_node i (g_now g) g) =? 0)) with false by lia.
-    change (slot_at i (schedule_node i (g_now g) g) = g_now g).
+    replace (negb (g_err (schedule_node i (g_now g) ga) =? 0)) with false by (change (g_err ga) with (g_err g) in Er; lia).
+    change (slot_at i (schedule_node i (g_now g) ga) = g_now g).
     unfold slot_at. rewrite YS. apply slot_at_set_same; auto.
 Qed.
 
@@ -875,6 +926,7 @@ Record SQ (start : Z) (i : nat) (g : gst) : Prop := {
   sq_lmt : forall m, n_lmt (node_at m g) = MIN_DT;
   sq_started : forall m, (m < i)%nat -> n_started (node_at m g) = true;
   sq_k : slot_at k g = MIN_DT;
+  sq_actk : (k < i)%nat -> n_act (node_at k g) = [true; false];
   sq_s : slot_at s g = if (s <? i)%nat then (match init with Some _ => start | None => MIN_DT end) else MIN_DT }.
 
 Lemma start_nodes_SQ start m : forall i g,
@@ -889,20 +941,24 @@ Proof.
     { destruct (Z.eq_dec (g_err (start_node cfgs (fb_beh kinds beh) i g)) 0); auto.
       rewrite start_nodes_err_sticky in Herr by auto. contradiction. }
     apply IH; auto; [lia|].
-    destruct H as [Q1 Q2 Q3 Q4 Q5 Q6 Q7].
+    destruct H as [Q1 Q2 Q3 Q4 Q5 Q6 QA Q7].
     destruct (start_node_spec (fb_beh kinds beh) i g ltac:(lia)) as (A1 & A2 & A3 & A4 & A5 & A6 & A7 & A8).
     destruct (start_node_fb_slot i g ltac:(lia) ltac:(lia) Herr1) as [S1 S2].
+    assert (SKC : c_sos (cfg k) = false) by (rewrite HC; reflexivity).
     constructor; try congruence.
     + intros m0. destruct (Nat.eq_dec m0 i) as [->|Hne]; [rewrite A7; auto|rewrite A4; auto].
     + intros m0 Hm0. destruct (Nat.eq_dec m0 i) as [->|Hne]; [apply A8; auto|rewrite A4; auto; apply Q5; lia].
     + destruct (Nat.eq_dec k i) as [<-|Hne]; [|rewrite A5; auto].
-      rewrite S1; auto. fold (cfg k). rewrite HC. reflexivity.
+      rewrite (proj1 (S1 (or_introl HK) SKC)); auto.
+    + intros Hki. destruct (Nat.eq_dec k i) as [<-|Hne].
+      * rewrite (proj2 (S1 (or_introl HK) SKC)). rewrite HC. reflexivity.
+      * rewrite A4 by auto. apply QA. lia.
     + destruct (Nat.eq_dec s i) as [<-|Hne].
       * replace (s <? S s)%nat with true by (symmetry; apply Nat.ltb_lt; lia).
         replace (s <? s)%nat with false in Q7 by (symmetry; apply Nat.ltb_ge; lia).
         destruct init as [v|].
         -- rewrite <- Q1. apply (S2 v); auto; [rewrite SC; reflexivity|]. rewrite Q7. unfold MIN_DT in *. lia.
-        -- rewrite S1; auto. rewrite SC. reflexivity.
+        -- rewrite (proj1 (S1 (or_intror HS) ltac:(rewrite SC; reflexivity))); auto.
       * rewrite A5 by auto. rewrite Q7.
         destruct (s <? i)%nat eqn:E1; destruct (s <? S i)%nat eqn:E2; auto.
         -- apply Nat.ltb_lt in E1. apply Nat.ltb_ge in E2. lia.
@@ -925,11 +981,12 @@ Proof.
       + rewrite nth_overflow; [reflexivity|rewrite repeat_length; auto].
     - intros; lia.
     - unfold slot_at; simpl. rewrite nth_repeat. reflexivity.
+    - intros; lia.
     - unfold slot_at; simpl. rewrite nth_repeat. reflexivity. }
   set (g1 := start_nodes cfgs (fb_beh kinds beh) 0 n g0).
   destruct (negb (g_err g1 =? 0)) eqn:E1; [intros; lia|]. intros _.
-  pose proof (start_nodes_SQ start n 0%nat g0 Hst ltac:(lia) H0 ltac:(fold g1; lia)) as [Q1 Q2 Q3 Q4 Q5 Q6 Q7].
-  fold g1 in Q1, Q2, Q3, Q4, Q5, Q6, Q7.
+  pose proof (start_nodes_SQ start n 0%nat g0 Hst ltac:(lia) H0 ltac:(fold g1; lia)) as [Q1 Q2 Q3 Q4 Q5 Q6 QA Q7].
+  fold g1 in Q1, Q2, Q3, Q4, Q5, Q6, QA, Q7.
   destruct (seed_fold_le (g_now g1) (g_slots g1) MAX_DT) as [F1 F2].
   assert (G : forall l acc, g_now g1 <= acc -> g_now g1 <= fold_left (fun a sc => if (g_now g1 <=? sc) && (sc <? a) then sc else a) l acc).
   { induction l as [|y r IH]; intros acc Ha; simpl; auto. apply IH. destruct ((g_now g1 <=? y) && (y <? acc)) eqn:E; lia. }
@@ -1072,16 +1129,19 @@ Proof.
 Qed.
 
 (* ---- quiescence of loops that are read only passively ---- *)
-Definition unread_source (i : nat) : Prop :=
-  (exists init, kind i = FSource init) /\ forall j, act_from cfgs i j = false.
+(* in state g nobody is subscribed to source i: every reader's input is passive at run time
+   (declared passive and not re-activated, or made passive by user code) *)
+Definition unread_source (g : gst) (i : nat) : Prop :=
+  (exists init, kind i = FSource init) /\ forall j, ract cfgs g i j = false.
 
 Lemma eval_source_unread j x :
-  (forall m, act_from cfgs j m = false) ->
+  (forall m, ract cfgs (f_g x) j m = false) ->
   let x' := eval_source cfgs j x in
   g_now (f_g x') = g_now (f_g x) /\ (forall m, slot_at m (f_g x') = slot_at m (f_g x)) /\
   g_nst (f_g x') = g_nst (f_g x) /\ g_err (f_g x') = g_err (f_g x) /\ f_st x' = f_st x /\
   length (g_nodes (f_g x')) = length (g_nodes (f_g x)) /\
-  (forall m, m <> j -> node_at m (f_g x') = node_at m (f_g x)).
+  (forall m, m <> j -> node_at m (f_g x') = node_at m (f_g x)) /\
+  (forall m, n_act (node_at m (f_g x')) = n_act (node_at m (f_g x))).
 Proof.
   intros Hun. cbn zeta. unfold eval_source. cbn zeta. simpl f_g. simpl f_st.
   destruct (negb (n_started (node_at j (f_g x)))); [repeat split; auto|].
@@ -1089,14 +1149,19 @@ Proof.
   set (g1 := upd_node j (set_out v (g_now (f_g x))) (f_g x)).
   assert (Hl : forall m c, nth_error cfgs m = Some c -> c = cfg (0 + m)).
   { intros m c Hm. apply (cfgs_nth_error cfgs m c Hm). }
+  assert (NA : forall m, n_act (node_at m g1) = n_act (node_at m (f_g x))).
+  { intros m. unfold g1. destruct (Nat.eq_dec m j) as [->|Hm]; [|rewrite node_at_upd_other; auto].
+    rewrite node_at_upd_gen. destruct (_ <? _)%nat; reflexivity. }
   destruct (notify_spec cfgs cfgs 0%nat j g1 Hl) as (B1 & B2 & B3 & B4 & B5 & B6 & B7).
+  assert (ND : forall m, node_at m (notify_from cfgs 0 j g1) = node_at m g1) by (intros; unfold node_at; rewrite B2; auto).
   repeat split; auto.
   - intros m. change (slot_at m (notify_from cfgs 0 j g1) = slot_at m g1).
-    destruct (B6 m) as [X|(_ & X & _)]; auto. rewrite Hun in X. discriminate.
+    destruct (B6 m) as [X|(_ & X & _)]; auto. rewrite (ract_act cfgs (f_g x) g1 j m (NA m)) in X. rewrite Hun in X. discriminate.
   - change (length (g_nodes (notify_from cfgs 0 j g1)) = length (g_nodes (f_g x))). rewrite B2.
     unfold g1, upd_node; simpl. apply update_length.
   - intros m Hm. change (node_at m (notify_from cfgs 0 j g1) = node_at m (f_g x)).
-    unfold node_at at 1. rewrite B2. fold (node_at m g1). unfold g1. apply node_at_upd_other; auto.
+    rewrite ND. unfold g1. apply node_at_upd_other; auto.
+  - intros m. change (n_act (node_at m (notify_from cfgs 0 j g1)) = n_act (node_at m (f_g x))). rewrite ND. apply NA.
 Qed.
 
 Record QI (T : Z) (x0 x : xst) : Prop := {
@@ -1105,11 +1170,12 @@ Record QI (T : Z) (x0 x : xst) : Prop := {
   q_err : g_err (f_g x) = g_err (f_g x0);
   q_st : f_st x = f_st x0;
   q_slots : forall m, slot_at m (f_g x) = slot_at m (f_g x0);
-  q_nodes : forall m, (forall init, kind m <> FSource init) -> node_at m (f_g x) = node_at m (f_g x0) }.
+  q_nodes : forall m, (forall init, kind m <> FSource init) -> node_at m (f_g x) = node_at m (f_g x0);
+  q_act : forall m, n_act (node_at m (f_g x)) = n_act (node_at m (f_g x0)) }.
 
 Lemma fscan_QI T x0 m : forall j x,
   (forall i, (j <= i < j + m)%nat -> slot_at i (f_g x0) <= T) ->
-  (forall i, (j <= i < j + m)%nat -> slot_at i (f_g x0) = T -> unread_source i) ->
+  (forall i, (j <= i < j + m)%nat -> slot_at i (f_g x0) = T -> unread_source (f_g x0) i) ->
   QI T x0 x -> QI T x0 (fscan cfgs kinds beh j m x).
 Proof.
   induction m as [|m IH]; intros j x Hle Hun H; simpl; auto.
@@ -1117,31 +1183,38 @@ Proof.
   apply IH.
   - intros i Hi. apply Hle. lia.
   - intros i Hi. apply Hun. lia.
-  - destruct H as [Q1 Q2 Q3 Q4 Q5 Q6]. unfold fscan_step. cbn zeta. rewrite Q5, Q1.
+  - destruct H as [Q1 Q2 Q3 Q4 Q5 Q6 Q7]. unfold fscan_step. cbn zeta. rewrite Q5, Q1.
     destruct (slot_at j (f_g x0) =? T) eqn:E.
     + destruct (Hun j ltac:(lia) ltac:(lia)) as [[init Hk] Hact].
       unfold eval_any. simpl f_g. rewrite Hk.
       set (x1 := {| f_g := upd_node j inc_evals (emit [11; Z.of_nat j; T] (f_g x)); f_st := f_st x |}).
-      destruct (eval_source_unread j x1 Hact) as (A1 & A2 & A3 & A4 & A5 & A6 & A7).
+      assert (NA1 : forall m0, n_act (node_at m0 (f_g x1)) = n_act (node_at m0 (f_g x0))).
+      { intros m0. rewrite <- Q7. unfold x1; simpl f_g. destruct (Nat.eq_dec m0 j) as [->|Hm]; [|rewrite node_at_upd_other; auto].
+        rewrite node_at_upd_gen. destruct (_ <? _)%nat; reflexivity. }
+      assert (Hact1 : forall m0, ract cfgs (f_g x1) j m0 = false).
+      { intros m0. rewrite (ract_act cfgs (f_g x0) (f_g x1) j m0 (NA1 m0)). apply Hact. }
+      destruct (eval_source_unread j x1 Hact1) as (A1 & A2 & A3 & A4 & A5 & A6 & A7 & A8).
       assert (X1 : g_now (f_g x1) = T) by exact Q1.
       assert (X2 : g_nst (f_g x1) = MAX_DT) by exact Q2.
       assert (X3 : g_err (f_g x1) = g_err (f_g x0)) by exact Q3.
       assert (X4 : f_st x1 = f_st x0) by exact Q4.
-      constructor; try congruence.
-      * intros m0. rewrite A2. apply Q5.
-      * intros m0 Hm0. assert (m0 <> j) by (intros ->; apply (Hm0 init); auto).
-        rewrite A7 by auto. unfold x1; simpl f_g. rewrite node_at_upd_other by auto. apply Q6; auto.
+      constructor; try congruence;
+        try solve [intros m0; rewrite A2; apply Q5];
+        try solve [intros m0; rewrite A8; apply NA1].
+      intros m0 Hm0. assert (m0 <> j) by (intros ->; apply (Hm0 init); auto).
+      rewrite A7 by auto. unfold x1; simpl f_g. rewrite node_at_upd_other by auto. apply Q6; auto.
     + specialize (Hle j ltac:(lia)). replace (T <? slot_at j (f_g x0)) with false by lia.
       constructor; auto.
 Qed.
 
-(* If everything that is due at the next cycle is a feedback source nobody reads actively,
-   and nothing is armed later, that cycle delivers the values and the engine is then idle:
-   the run loop stops there, whatever the end time. *)
+(* If everything that is due at the next cycle is a feedback source to which nobody is
+   subscribed (run-time activity n_act: the declared i_active unless user code called
+   make_passive / make_active), and nothing is armed later, that cycle delivers the values and
+   the engine is then idle: the run loop stops there, whatever the end time. *)
 Lemma passive_quiesce_l x :
   let T := g_nst (f_g x) in
   (forall i, (i < n)%nat -> slot_at i (f_g x) <= T) ->
-  (forall i, (i < n)%nat -> slot_at i (f_g x) = T -> unread_source i) ->
+  (forall i, (i < n)%nat -> slot_at i (f_g x) = T -> unread_source (f_g x) i) ->
   let x' := fcycle cfgs kinds beh T x in
   g_nst (f_g x') = MAX_DT /\
   (forall end_ fuel, frun cfgs kinds beh end_ (S fuel) x' = x') /\
@@ -1151,7 +1224,9 @@ Proof.
   intros T Hle Hun x'. unfold x', fcycle. cbn zeta. simpl f_g. simpl f_st.
   set (x0 := {| f_g := begin_cycle T (f_g x); f_st := f_st x |}).
   assert (H0 : QI T x0 x0) by (constructor; auto).
-  pose proof (fscan_QI T x0 n 0%nat x0 ltac:(intros i Hi; apply Hle; lia) ltac:(intros i Hi; apply Hun; lia) H0) as [Q1 Q2 Q3 Q4 Q5 Q6].
+  assert (Hun0 : forall i, (0 <= i < 0 + n)%nat -> slot_at i (f_g x0) = T -> unread_source (f_g x0) i).
+  { intros i Hi He. destruct (Hun i ltac:(lia) He) as [K A]. split; auto. }
+  pose proof (fscan_QI T x0 n 0%nat x0 ltac:(intros i Hi; apply Hle; lia) Hun0 H0) as [Q1 Q2 Q3 Q4 Q5 Q6 Q7].
   set (x1 := fscan cfgs kinds beh 0 n x0) in *.
   split; [exact Q2|]. split; [|split; [intros m Hm; apply (Q6 m Hm)|exact Q4]].
   intros end_ fuel. simpl.
